@@ -11,7 +11,7 @@ request  `{"now":ms,"max":n,"bufs":n,"cfg":[strictMutual,maskUndefined,statsUnwi
   `rec = [wildcards,in_port,dl_src,dl_dst,dl_vlan,dl_vlan_pcp,dl_type,nw_tos,nw_proto,nw_src,nw_dst,tp_src,tp_dst]`,
   `act = [0,port,max_len] | [1,kind,arg]`, `P` as in `Drivers/C03`.
 answer   `{"model":[{"outs":[out…],"table":[entry…],"pool":[0/1…]}… per step], "spec":[{"outs":[…],"flows":[…],"pool":[0/1…]}…]}`
-  model entry `[priority, effective priority, rec of the match object, acts, cookie, flags, idle, hard, created, touched, packets, bytes]`
+  model entry `[priority, effective priority, wildcards + attribute views of the match object, acts, cookie, flags, idle, hard, created, touched, packets, bytes]`
   spec flow   `[priority, rank, rec as transmitted, acts, cookie, flags, idle, hard, installed, lastUsed, packets, bytes]`
   out: `{"k":"fr","m":rec,"cookie","prio","reason","ds","dn","idle","pk","by"}` | `{"k":"err","t","c"}` | `{"k":"pin","port","bid","reason"}`
      | `{"k":"rel","id","len","port","acts"}`
@@ -57,6 +57,12 @@ def phdrOf (j : J) : Except String PHdr := do
     | [i, p, t] => pure (some { id := i, pcp := p, ethType := t })
     | _ => bad "vlan")
   pure { src := (← j.nat "src"), dst := (← j.nat "dst"), typ := (← j.nat "typ"), llc := llc, vlan := vlan, l3 := (← l3Of (← j.get "l3")) }
+
+/-- a match object through its public attributes: the wildcard word and the attribute views (a wildcarded field reads 0) -/
+def viewJ (m : OfMatch) : J :=
+  J.ofNats [m.wildcards, (m.view .inPort).getD 0, (m.view .dlSrc).getD 0, (m.view .dlDst).getD 0, (m.view .dlVlan).getD 0,
+    (m.view .dlVlanPcp).getD 0, (m.view .dlType).getD 0, (m.view .nwTos).getD 0, (m.view .nwProto).getD 0,
+    (m.srcView.map (·.1)).getD 0, (m.dstView.map (·.1)).getD 0, (m.view .tpSrc).getD 0, (m.view .tpDst).getD 0]
 
 def actOf (j : J) : Except String Action := do
   match ← j.asNats with
@@ -112,7 +118,7 @@ def soutJ : Spec.SOut → J
   | .aggStats p b n => J.mk [("k", J.str "as"), ("pk", J.ofNat p), ("by", J.ofNat b), ("n", J.ofNat n)]
 
 def entryJ (cfg : Cfg) (e : FEntry) : J :=
-  J.arr [J.ofNat e.priority, J.ofNat (cfg.key e), recJ e.mtch, J.arr (e.data.actions.map actJ), J.ofNat e.data.cookie,
+  J.arr [J.ofNat e.priority, J.ofNat (cfg.key e), viewJ e.mtch, J.arr (e.data.actions.map actJ), J.ofNat e.data.cookie,
          J.ofNat e.data.flags, J.ofNat e.data.idle, J.ofNat e.data.hard, J.ofNat e.data.created, J.ofNat e.data.touched,
          J.ofNat e.data.packets, J.ofNat e.data.bytes]
 
